@@ -419,10 +419,34 @@ class Walker:
                 self.block(st.body[:-1] if is_cont else st.body)
                 self.env, self.bind_ctx = env0, bc0
                 self.gen = saved + (('pyif', cond, False),)
+                self.refine_none(st.test, False)
                 self.block(stmts[i + 1:])
                 self.gen = saved
                 return
             self.stmt(st)
+
+    def refine_none(self, test, holds):
+        """Inside the branch where `NAME is None` is known to be `holds`: a local bound to `A if c else None` is A when it is not
+        None (and None otherwise)."""
+        neg = False
+        t = test
+        while isinstance(t, ast.UnaryOp) and isinstance(t.op, ast.Not):
+            t, neg = t.operand, not neg
+        if not (isinstance(t, ast.Compare) and len(t.ops) == 1 and isinstance(t.ops[0], (ast.Is, ast.IsNot)) and isinstance(t.left, ast.Name) and
+                isinstance(t.comparators[0], ast.Constant) and t.comparators[0].value is None):
+            return
+        is_none = isinstance(t.ops[0], ast.Is)
+        if neg:
+            is_none = not is_none
+        none_here = is_none if holds else not is_none       # is NAME None in this branch?
+        v = self.env.get(t.left.id)
+        if not (isinstance(v, tuple) and v and v[0] in ('phi', 'ifexp')):
+            return
+        a, b = v[2], v[3]
+        if b == ('const', None) and a != ('const', None):
+            self.env[t.left.id] = b if none_here else a
+        elif a == ('const', None) and b != ('const', None):
+            self.env[t.left.id] = a if none_here else b
 
     # ---- statements ------------------------------------------------------------------------
     def stmt(self, st):
@@ -1618,10 +1642,12 @@ class Walker:
         env0, bc0 = dict(self.env), dict(self.bind_ctx)
         saved_gen = self.gen
         self.gen = saved_gen + (('pyif', cond, True),)
+        self.refine_none(st.test, True)
         self.block(st.body)
         env_t, bc_t = self.env, self.bind_ctx
         self.env, self.bind_ctx = dict(env0), dict(bc0)
         self.gen = saved_gen + (('pyif', cond, False),)
+        self.refine_none(st.test, False)
         self.block(st.orelse)
         env_f = self.env
         self.gen = saved_gen
